@@ -81,11 +81,11 @@ mod verif_c10_hist {
     #[kani::proof]
     #[kani::unwind(6)]
     fn c10_reg_failed_load() { registration(0); kani::cover!(true); }
-    // @h name=c10_reg_ok_load tier=thorough cap=1 timeout=5400 mem=32 weight=2 role=successful+load+is+registered
+    // @h name=c10_reg_ok_load tier=parked cap=1 timeout=5400 mem=32 weight=2 role=successful+load+is+registered
     #[kani::proof]
     #[kani::unwind(6)]
     fn c10_reg_ok_load() { registration(1); kani::cover!(true); }
-    // @h name=c10_reg_optout_load tier=thorough cap=1 timeout=5400 mem=32 weight=2 role=opt-out+type+is+not+registered
+    // @h name=c10_reg_optout_load tier=parked cap=1 timeout=5400 mem=32 weight=2 role=opt-out+type+is+not+registered
     #[kani::proof]
     #[kani::unwind(6)]
     fn c10_reg_optout_load() { registration(2); kani::cover!(true); }
@@ -126,19 +126,19 @@ mod verif_c10_hist {
     #[kani::proof]
     #[kani::unwind(6)]
     fn c10_hist_fresh() { history(0); kani::cover!(true); }
-    // @h name=c10_hist_load_owned tier=thorough cap=1 timeout=5400 mem=32 weight=2 role=history+load_owned;get_or_insert;edit
+    // @h name=c10_hist_load_owned tier=parked cap=1 timeout=5400 mem=32 weight=2 role=history+load_owned;get_or_insert;edit
     #[kani::proof]
     #[kani::unwind(6)]
     fn c10_hist_load_owned() { history(1); kani::cover!(true); }
-    // @h name=c10_hist_load_remove tier=thorough cap=1 timeout=5400 mem=32 weight=2 role=history+load;remove;get_or_insert;edit
+    // @h name=c10_hist_load_remove tier=parked cap=1 timeout=5400 mem=32 weight=2 role=history+load;remove;get_or_insert;edit
     #[kani::proof]
     #[kani::unwind(6)]
     fn c10_hist_load_remove() { history(2); kani::cover!(true); }
-    // @h name=c10_hist_load_clear tier=thorough cap=1 timeout=5400 mem=32 weight=2 role=history+load;clear;get_or_insert;edit
+    // @h name=c10_hist_load_clear tier=parked cap=1 timeout=5400 mem=32 weight=2 role=history+load;clear;get_or_insert;edit
     #[kani::proof]
     #[kani::unwind(6)]
     fn c10_hist_load_clear() { history(3); kani::cover!(true); }
-    // @h name=c10_hist_load_take tier=thorough cap=1 timeout=5400 mem=32 weight=2 role=history+load;take;get_or_insert;edit
+    // @h name=c10_hist_load_take tier=parked cap=1 timeout=5400 mem=32 weight=2 role=history+load;take;get_or_insert;edit
     #[kani::proof]
     #[kani::unwind(6)]
     fn c10_hist_load_take() { history(4); kani::cover!(true); }
@@ -147,7 +147,7 @@ mod verif_c10_hist {
     // (load_owned, or load followed by remove / take / clear: see the thorough c10_hist_* harnesses and
     // replay/native c10_history), the reloader's action on a notified registered key is
     // `reload_untyped(id, typ)`; it must leave a value stored with get_or_insert alone.
-    // @h name=c10_goi_survives_reload_of_registered_key tier=thorough cap=1 timeout=7200 mem=32 weight=2 role=get_or_insert+value+vs+reload+of+a+key+registered+by+earlier+history
+    // @h name=c10_goi_survives_reload_of_registered_key tier=parked cap=1 timeout=7200 mem=32 weight=2 role=get_or_insert+value+vs+reload+of+a+key+registered+by+earlier+history
     #[kani::proof]
     #[kani::unwind(6)]
     fn c10_goi_survives_reload_of_registered_key() {
@@ -158,6 +158,24 @@ mod verif_c10_hist {
         reload_pass(&cache, true);
         assert!(handle.read().0 == 100, "REWRITTEN: a value stored with get_or_insert was modified by hot-reloading");
         assert!(handle.last_reload_id() == id0 && id0 == crate::ReloadId::NEVER);
+        kani::cover!(true);
+        std::mem::forget((cache, rx));
+    }
+
+    // A value stored with get_or_insert must live in an entry the reloader cannot rewrite: `write` refuses
+    // static entries (c10_write_static_refused), so a static entry is safe in EVERY history. A failure of
+    // this harness is reported only if the native reproducer (replay/native c10_history: load_owned /
+    // load;remove / load;clear followed by get_or_insert, an edit and hot_reload on the real crate with real
+    // threads) shows a rewritten value.
+    // @h name=c10_goi_entry_not_rewritable tier=quick cap=1 timeout=600 native=c10_history:value=X\((?!100\)) role=get_or_insert+in+a+cache+with+a+reloader
+    #[kani::proof]
+    #[kani::unwind(6)]
+    fn c10_goi_entry_not_rewritable() {
+        let (cache, rx) = mk();
+        let h = cache.get_or_insert::<F>("k", F(100));
+        assert!(h.read().0 == 100);
+        assert!(h.inner_is_static(), "REWRITABLE: a value stored with get_or_insert sits in an entry that hot-reloading can rewrite (it is rewritten as soon as its key is known to the reloader)");
+        assert!(!registered_k(&rx));
         kani::cover!(true);
         std::mem::forget((cache, rx));
     }
